@@ -91,6 +91,10 @@ PlanOK(p) ==
 
 Plans == {p \in [chain : Chains, version : Versions, ebc : EbClasses, lc : LenClasses, shape : Shapes, gof : Variants] : PlanOK(p)}
 
+\* definitional sanity of the selection boundary and of the weight rule (evaluated once by TLC)
+ASSUME SelectBoundary
+ASSUME WeightRuleOK
+
 -----------------------------------------------------------------------------
 SInit == /\ g = 0 /\ path = <<>> /\ closed = FALSE
          /\ h \in Plans
